@@ -24,3 +24,17 @@ package bufioutil
 //@   modifies p.index
 //@   ensures p.index == idx
 //@ end
+
+//@ # ---- buffered file writer behind the BufioWriter interface (C15, C01): a successful Write appends exactly
+//@ # the given bytes to the file view (out[0..n)), a failed one appends nothing; Size is the number of bytes written
+//@ ghost field BufioWriter.out map[int]byte
+//@ ghost field BufioWriter.n int
+//@ func BufioWriter.Write
+//@   modifies self.out, self.n
+//@   ensures result0 >= 0 && result0 <= len(p)
+//@   ensures result1 == nil ==> (result0 == len(p) && self.n == old(self.n) + len(p) && all(q, (q >= old(self.n) && q < old(self.n) + len(p)) ==> self.out[q] == p[q - old(self.n)]) && all(i, (i >= 0 && i < old(self.n)) ==> self.out[i] == old(self.out)[i]))
+//@   ensures result1 != nil ==> (self.n == old(self.n) && self.out == old(self.out))
+//@ end
+//@ func BufioWriter.Size
+//@   ensures result == int64(self.n) && self.n >= 0
+//@ end
